@@ -33,6 +33,8 @@ const MODS: &[Mod] = &[
       "import type { BT } from \"jsr:@s/b@1\";\nexport function fa(x: BT): BT { return x; }\n",
       "export function fa(x: number) { return x; }\n",
       "import { helper } from \"./h.ts\";\nexport function fa2(): void { helper(); }\nexport const extra: number = 1;\n",
+      // still imports @s/b (it stays in the graph), but only a function body uses it: not part of the public API any more
+      "import type { BT } from \"jsr:@s/b@1\";\nexport function fa(x: number): number { const b: BT = { b: x }; return b.b; }\n",
     ],
   },
   Mod {
@@ -260,9 +262,21 @@ fn body(depth: usize) -> impl Fn(&Ch) -> Run + Sync + Send {
             let w = b.get(k).unwrap_or(&Value::Null);
             v == w || (k.starts_with(&b_prefix) && v.is_string() && !w.is_string())
           });
+        // ... and its mirror image: the cached failure was recorded while the
+        // package still named the dependency package in its public API; the
+        // sources no longer do, the reused failure entry brings it in anyway
+        let dep_pkg_added = only_presence
+          && a_failed(&a)
+          && a_failed(&b)
+          && a.iter().all(|(k, v)| {
+            let w = b.get(k).unwrap_or(&Value::Null);
+            v == w || (k.starts_with(&b_prefix) && !v.is_string() && w.is_string())
+          });
         run.violate(
           if dep_pkg_hidden {
             "cached-failure-hides-dependency-package".to_string()
+          } else if dep_pkg_added {
+            "cached-failure-brings-in-dependency-package-the-sources-no-longer-expose".to_string()
           } else {
             format!("cache-changes-result:{}", if only_presence { "which-modules-have-output" } else { "emitted-content" })
           },
